@@ -3,7 +3,8 @@ Model of internal/rtpbuffer (rtpbuffer.go, packet_factory.go, retainable_packet.
 pkg/nack/responder_interceptor.go, transcribed branch by branch from the *fixed* code
 (fix F-04: a late Add outside the window is dropped and released; fix F-05: the pooled
 payload buffer is 1460+2 bytes so the RTX prefix never truncates the payload; fix F-06: `Close`
-sets `closed`, after which NACKs are ignored, and waits for the resend goroutines in flight).
+sets `closed`, after which NACKs are ignored, and waits for the resend goroutines in flight;
+fix F-36: legacy padding is measured against the original payload, not the RTX prefix).
 Core Lean only.
 -/
 import Interceptor.Base.Seq16
@@ -123,9 +124,11 @@ def newPacket (h : Hdr) (payload : List Nat) (rtxSsrc rtxPt rtxSeq : Nat) : Exce
     let pl := be16 h.seq ++ payload
     let h1 := { h with ssrc := rtxSsrc, pt := rtxPt, seq := rtxSeq }
     if h1.padding then
-      if h1.paddingSize = 0 ∧ pl.length > 0 then
+      -- the count is the last byte of the original payload and may cover at most that payload,
+      -- never the 2-byte prefix (fix F-36)
+      if h1.paddingSize = 0 ∧ pl.length > 2 then
         let paddingLength := pl.getLastD 0
-        if paddingLength > pl.length then (.error .padding, true)
+        if paddingLength > pl.length - 2 then (.error .padding, true)
         else
           (.ok { seq := h.seq, hdr := { h1 with padding := false, paddingSize := 0 },
                  payload := pl.take (pl.length - paddingLength) }, true)
